@@ -152,6 +152,10 @@ def _biased(draw, hi):
            "np_seed": draw(st.integers(0, 2**32 - 1)), "py_seed": draw(st.integers(0, 2**32 - 1))}
     if "start_coord" in kw:
         out["start_form"] = draw(st.sampled_from([None, "tuple", "ndarray", "ndarray-reused"]))
+    else:
+        form = draw(st.sampled_from(["int64", "int64", "int8", "int8", "int16", "int32"] + ([] if name == "gen_wilson" else ["tuple", "list"])))
+        if form != "int64":
+            out["shape_form"] = form
     return out
 
 
